@@ -28,10 +28,10 @@ def to_iter(I, v):
         if isinstance(inner, Seq): return Iter("slice", s=SliceRef(inner, 0, len(inner.cells)), i=0, hi=len(inner.cells))
         if isinstance(inner, SliceRef): return Iter("slice", s=inner, i=inner.lo, hi=inner.hi)
         if isinstance(inner, MapV):
-            items = colls.sorted_items(I, inner) if inner.kind == "btree" else inner.items
+            items = colls.sorted_items(I, inner) if inner.kind == "btree" else colls.hash_order(I, list(inner.items))
             return Iter("list", xs=[Agg(None, [Cell(Ref(Cell(k))), Cell(Ref(c))]) for k, c in items], i=0)
         if isinstance(inner, SetV):
-            return Iter("list", xs=[Ref(Cell(k)) for k in inner.items], i=0)
+            return Iter("list", xs=[Ref(Cell(k)) for k in colls.sorted_keys(I, inner)], i=0)
         if isinstance(inner, Agg) and len(inner.cells) == 1 and isinstance(inner.cells[0].v, Seq):
             s = inner.cells[0].v
             return Iter("slice", s=SliceRef(s, 0, len(s.cells)), i=0, hi=len(s.cells))
@@ -46,9 +46,9 @@ def to_iter(I, v):
     if isinstance(v, EnumV) and v.d.name == "Option":
         return Iter("list", xs=[c.v for c in v.cells], i=0)
     if isinstance(v, MapV):
-        items = colls.sorted_items(I, v) if v.kind == "btree" else v.items
+        items = colls.sorted_items(I, v) if v.kind == "btree" else colls.hash_order(I, list(v.items))
         return Iter("list", xs=[Agg(None, [Cell(k), Cell(c.v)]) for k, c in items], i=0)
-    if isinstance(v, SetV): return Iter("list", xs=list(v.items), i=0)
+    if isinstance(v, SetV): return Iter("list", xs=colls.sorted_keys(I, v), i=0)
     if isinstance(v, Agg) and v.name and len(v.cells) == 1 and isinstance(v.cells[0].v, Seq):
         return Iter("owned", cells=list(v.cells[0].v.cells), i=0)
     if isinstance(v, (EnumV, Agg)):
@@ -375,7 +375,79 @@ def method(name, c):
             for x in iter(lambda: next_(I, it), END): acc = I.call_value(a[2], [acc, x])
             return acc
         if name in ("try_fold", "try_for_each"):
-            raise Unmodelled("try_fold")
+            acc = a[1] if name == "try_fold" else unit()
+            fcl = a[2] if name == "try_fold" else a[1]
+            last = None
+            for x in iter(lambda: next_(I, it), END):
+                r = I.call_value(fcl, [acc, x] if name == "try_fold" else [x])
+                if getattr(r, "variant", None) not in ("Some", "Ok", "Continue"): return r
+                acc = r.cells[0].v; last = r
+            if last is not None: return EnumV(last.d, last.variant, [Cell(acc)])
+            dn = d.name.split("::")[-1] if d is not None and getattr(d, "name", None) else ""
+            if dn == "Option": return st.some(I, acc)
+            if dn == "Result": return st.ok(I, acc)
+            raise Unmodelled("try_fold over an empty iterator with output type " + repr(d))
+        if name in ("step_by", "skip_while", "scan", "inspect"):
+            stt = dict(first=True, skipping=True, acc=Cell(a[1]) if name == "scan" else None, done=False)
+            n_ = None
+            if name == "step_by":
+                n_ = a[1].v if a[1].concrete else I.E.concretize(a[1], label="step_by")
+                if n_ == 0: raise Panic(f"assertion failed: step != 0 in {fr.fn.crate}::{fr.fn.name}")
+            def gen(I_):
+                st2 = st_()
+                if stt["done"]: return st2.none(I_)
+                if name == "step_by":
+                    if not stt["first"]:
+                        for _ in range(n_ - 1):
+                            if next_(I_, it) is END: return st2.none(I_)
+                    stt["first"] = False
+                    x = next_(I_, it)
+                elif name == "skip_while":
+                    x = next_(I_, it)
+                    while stt["skipping"] and x is not END and I_.E.branch(I_.call_value(a[1], [Ref(Cell(x))]), "skip_while"):
+                        x = next_(I_, it)
+                    stt["skipping"] = False
+                elif name == "inspect":
+                    x = next_(I_, it)
+                    if x is not END: I_.call_value(a[1], [Ref(Cell(x))])
+                else:
+                    x = next_(I_, it)
+                    if x is END: return st2.none(I_)
+                    r = I_.call_value(a[2], [Ref(stt["acc"]), x])
+                    if r.variant == "None": stt["done"] = True
+                    return r
+                return st2.none(I_) if x is END else st2.some(I_, x)
+            return Iter("from_fn", f=PyFn(gen, name))
+        if name == "rposition":
+            xs = drain(I, it)
+            for idx in range(len(xs) - 1, -1, -1):
+                if I.E.branch(I.call_value(a[1], [xs[idx]]), name): return st.some(I, Int("usize", idx))
+            return st.none(I)
+        if name in ("max_by", "min_by"):
+            best = None
+            for x in iter(lambda: next_(I, it), END):
+                if best is None: best = x
+                else:
+                    r = I.call_value(a[1], [Ref(Cell(x)), Ref(Cell(best))]).variant
+                    if (name == "max_by" and r != "Less") or (name == "min_by" and r == "Less"): best = x
+            return st.none(I) if best is None else st.some(I, best)
+        if name == "reduce":
+            acc = None
+            for x in iter(lambda: next_(I, it), END):
+                acc = x if acc is None else I.call_value(a[1], [acc, x])
+            return st.none(I) if acc is None else st.some(I, acc)
+        if name in ("ne", "lt", "le", "gt", "ge", "cmp", "partial_cmp"):
+            xs = Seq([Cell(deref(x)) for x in drain(I, it)]); ys = Seq([Cell(deref(x)) for x in drain(I, to_iter(I, a[1]))])
+            if name == "ne": return b_not(st.val_eq(I, xs, ys))
+            o = st.val_cmp(I, xs, ys)
+            if name == "cmp": return st.ordering(I, o)
+            if name == "partial_cmp": return st.some(I, st.ordering(I, o))
+            return {"lt": o == "Less", "le": o != "Greater", "gt": o == "Greater", "ge": o != "Less"}[name]
+        if name == "is_sorted":
+            xs = [deref(x) for x in drain(I, it)]
+            for x, y in zip(xs, xs[1:]):
+                if st.val_cmp(I, x, y) == "Greater": return False
+            return True
         if name in ("max", "min", "max_by_key", "min_by_key"):
             best = bk = None
             for x in iter(lambda: next_(I, it), END):
